@@ -23,9 +23,13 @@
     `goto retry` with the contract monitor — the retry measure is the same number in both runs), the per-line loop with the
     stale slice read and the `isBlankLine` statistics, both line loops of `parseBlocks` — `shift_driver_*`;
   * whole runs: `shift_invariance_list_free`.
-  Not proved: the two list parsers (listItemParser.Continue needs the cross-parser fact "listParser.Continue has excluded
-  IndentPosition = -1 on this line", and `emptyListItemWithBlankLines` survives the closing of its list); steps (i), (ii),
-  (iv) of the plan in GM.Props.C09 — so `GM.Props.C09.IndependentBlocks` itself stays a `def`.
+  Round 2: the two list parsers are covered as well (`shift_invariance`, all ten block parsers, every source `b`), over
+  conditional step contracts (`shift_contracts_all`) whose side conditions are facts about run A alone: its store invariant
+  `K` (acyclic, node 0 is nobody's child, open blocks are not the Document) threaded through the driver, and the mid-pass
+  invariant of the no-panic proof (`StableL` + `ListHint`, black boxes `listContinue_okl2` / `listItemContinue_okl2`).
+  And the first half END TO END for an empty `A`: `independent_blocks_empty_a_all` = `IndependentBlocks [] h b` for all `h`,
+  `b`. Not proved: steps (i)/(ii) for a non-empty `A` (prefix determinism: the run on `a ++ t` up to `|a|` against the run
+  on `a`; closing at the end of the source against closing by blank line + heading).
   A last line of `b` WITHOUT line feed is covered (`shift_invariance_list_free`): there fcode_block.go:104 can call
   `Advance(-1)`, after which the readers are only related again after the next AdvanceLine; this is harmless because a leaf
   block is always the last open block — an invariant of run A taken from the no-panic proof (`StableL`, used as a black
@@ -34,6 +38,9 @@
 import GM.Proof.ShiftSimMainW
 import GM.Proof.ShiftSimTreeOf
 import GM.Proof.ShiftSimList
+import GM.Proof.ShiftSimEndC
+import GM.Proof.ShiftSimEndD
+import GM.Proof.ShiftSimCompose
 
 namespace GM.Props.C09Shift
 open GM GM.Text GM.Blocks GM.Blocks.Sh
@@ -212,17 +219,108 @@ theorem shift_invariance_subtrees : type_of% @treeOf_shift_str := @treeOf_shift_
     children moved by `|p|` — the shape `GM.Blocks.indepPair` expects for the part of `A + heading + B` that comes from `B`. -/
 theorem shift_invariance_document : type_of% @treeOf_shift_doc := @treeOf_shift_doc
 
+/-! ### round 2: acyclic stores, and the first half END TO END for an empty document `A` -/
+
+/-- **The store of the block phase is acyclic, for EVERY source**: links point downwards — every child has a larger node id
+    than its parent and every parent pointer is smaller than the node's own id (so the children lists describe a forest and
+    `treeOf` does not depend on its fuel once the fuel is at least the store's length); the Document has no lines.
+    An ingredient of C05(b) ("the AST is a tree") as well. -/
+theorem store_acyclic (src : Bytes) (s : St) (h : run src = .ok s) :
+    Acyc s ∧ (s.nodes.getD 0 default).lines = [] ∧ (s.nodes.getD 0 default).kind = .document :=
+  run_acyc src s h
+
+/-- reading the tree with more fuel than the store has nodes changes nothing -/
+theorem tree_fuel_irrelevant : type_of% @treeOf_root_stable := @treeOf_root_stable
+
+/-- the heading line `# h` + end of source: the store is Document[1] and the heading that `atxNodeOf` describes -/
+theorem heading_line_run : type_of% @run_heading_line := @run_heading_line
+
+/-- the run on `"\n# h\n\n" ++ b`, followed line by line (leading blank line, heading line, blank line): it reaches the
+    outer loop of parseBlocks behind the blank line in a `Start` state whose store is Document[1] + the same heading with
+    its line moved by one byte — steps (i)/(ii) of the plan for an EMPTY `A`, by exact step lemmas (`openBlocks_heading_exact`,
+    `blank_after_heading_exact`, `skip_one_blank`) instead of a general prefix-determinism argument. -/
+theorem joined_run_reaches_start : type_of% @run_joined := @run_joined
+
+/-- **C09 first half, END TO END, for an empty document `A`**: for EVERY heading text `h` (the statement itself demands it
+    free of LF / CR) and EVERY `b` without `- * +` and digits (and, by the statement, without `[` and CR): the two dumps
+    `GM.Blocks.indepPair [] h b` compares are equal — the block tree of `"\n# h\n\n" ++ b`, read with its own fuel, is
+    Document[ heading of `"# h\n"` moved by 1, blocks of `b` moved by `|"\n# h\n\n"|` ], `HasBlankPreviousLines` compared
+    where the block phase reads it. This is `GM.Props.C09.IndependentBlocks [] h b`. -/
+theorem independent_blocks_empty_a (h b : Bytes) (hb : ∀ c ∈ b, c ≠ 45 ∧ c ≠ 42 ∧ c ≠ 43 ∧ isNumeric c = false) :
+    ∀ e g, indepPair [] h b = some (e, g) → e = g :=
+  independent_blocks_empty h b hb
+
+/-- the statement is not vacuous: `indepPair` applies (answers `some`) for `h = "h"`, `b = "a\n\n> q\n"` -/
+example : (indepPair [] [104] [97, 10, 10, 62, 32, 113, 10]).isSome = true := by decide +kernel
+
+/-! ### round 2: the two list parsers — shift invariance for ALL block parsers -/
+
+/-- the step contracts of all ten block parsers, for frames that also relate the flag `emptyListItemWithBlankLines`
+    (`F.flag = true`). The contracts of the list parsers are conditional (`PSimL`): `Close`/`Continue` need run A's store
+    invariant `K` and a node that is not the Document; `listItemParser.Continue` on a line needs that its List is not the
+    Document and that run A's reader is well-formed afterwards. -/
+theorem shift_contracts_all : type_of% @psimL_all := @psimL_all
+
+/-- `listItemParser.Open` under the relation, unconditionally -/
+theorem shift_step_list_item_open_all : type_of% @GM.Blocks.Sh.listItemOpen_sim := @GM.Blocks.Sh.listItemOpen_sim
+
+/-- the driver over the conditional contracts, run A's store invariant `K` threaded through -/
+theorem shift_driver_close_blocks_all : type_of% @closeBlocks_L := @closeBlocks_L
+theorem shift_driver_try_parsers_all : type_of% @tryParsers_L := @tryParsers_L
+theorem shift_driver_open_blocks_all : type_of% @openBlocks_L := @openBlocks_L
+
+/-- one pass of the per-line loop, all parsers: run A's state carries the mid-pass invariant of the no-panic proof
+    (`MidA`: `StableL` and what `listParser.Continue` has established on this line) -/
+theorem shift_driver_line_all : type_of% @lineLoop_L := @lineLoop_L
+theorem shift_driver_lines_all : type_of% @linesLoop_L := @linesLoop_L
+theorem shift_driver_blocks_all : type_of% @blocksLoop_L := @blocksLoop_L
+
+/-- **Shift invariance of the block phase, ALL block parsers, EVERY source `b`** (C09 first half, step (iii), complete).
+    As `shift_invariance_list_free`, without any restriction on `b`; the frame also relates the flag
+    `emptyListItemWithBlankLines` (`F.flag = true`, i.e. `Start` demands that run B's flag is unset, as it is in a fresh
+    run and behind a heading + blank line). -/
+theorem shift_invariance (F : Frame) (hF : F.OK) (hfl : F.flag = true) (b : Bytes) {sB : St} {statsB : List LineStat}
+    (hS : Start F b sB statsB) (fuelB : Nat) (sB' : St) (hB : blocksLoop 0 fuelB statsB sB = .ok ((), sB')) :
+    ∃ sA', run b = .ok sA' ∧ StoreRel F sA'.nodes sB'.nodes :=
+  shift_invariance_all F hF hfl b hS fuelB sB' hB
+
+/-- **C09 first half, END TO END, for an empty document `A`, EVERY `h`, EVERY `b`** (lists included):
+    `GM.Props.C09.IndependentBlocks [] h b`. -/
+theorem independent_blocks_empty_a_all (h b : Bytes) : ∀ e g, indepPair [] h b = some (e, g) → e = g :=
+  independent_blocks_empty_all h b
+
+/-- **what steps (i)/(ii) have to deliver for a non-empty `A`** (`GM.Blocks.Sh.Reach a h b sa sh sd`): the run on the joined
+    document passes through a `Start` state of a frame for the prefix `a ++ sep ++ "# h\n" ++ "\n"`, and in its final store
+    the old children of the Document dump like the children of `run a`'s Document followed by the heading of
+    `run "# h\n"` moved by `|a ++ sep|`. -/
+abbrev PrefixReached := @GM.Blocks.Sh.Reach
+
+/-- **step (iv), composition, for EVERY `a`, `h`, `b`**: `IndependentBlocks a h b` follows from `PrefixReached` (shift
+    invariance for all parsers + acyclic stores + the assembly of the dumps for an arbitrary frame, `indep_strings_gen`);
+    nothing is assumed about `b`. `independent_blocks_empty_a_all` is the instance `a = []`. -/
+theorem independent_blocks_from_prefix (a h b : Bytes)
+    (hreach : ∀ sa sh sd, run a = .ok sa → run (headingLine h) = .ok sh → run (indepDoc a h b) = .ok sd →
+      PrefixReached a h b sa sh sd) :
+    ∀ e g, indepPair a h b = some (e, g) → e = g :=
+  independent_blocks_of_reach a h b hreach
+
+/-- not vacuous for a `b` with lists: `h = "h"`, `b = "- a\n\n  b\n1. c\n"` -/
+example : (indepPair [] [104] [45, 32, 97, 10, 10, 32, 32, 98, 10, 49, 46, 32, 99, 10]).isSome = true := by decide +kernel
+
 /-! ### non-vacuity (tests on literals) -/
 
 /-- the frame of the prefix `"# h\n\n"`: 5 bytes, 2 lines, one node (the heading, node 1) under the Document -/
-def exFrame : Frame := { p := [35, 32, 104, 10, 10], dl := 2, c := 1, kids0 := [1] }
+def exNodes : List Node :=
+  [{ kind := .document, children := [1] },
+   { kind := .heading, level := 1, parent := some 0, lines := [{ start := 2, stop := 3 }], linesNil := false,
+     blankPrev := true }]
+
+def exFrame : Frame := { p := [35, 32, 104, 10, 10], dl := 2, c := 1, kids0 := [1], oldNodes := exNodes }
 
 /-- run B's state after `"# h\n\n"` in front of `b`: reader moved, Document + closed heading, nothing open -/
 def exStateB (b : Bytes) : St :=
   { r := shR exFrame (Reader.new b),
-    nodes := [{ kind := .document, children := [1] },
-              { kind := .heading, level := 1, parent := some 0, lines := [{ start := 2, stop := 3 }], linesNil := false,
-                blankPrev := true }],
+    nodes := exNodes,
     pc := {} }
 
 /-- the statistics B has recorded: the blank line (line 1) at level 0 -/
@@ -232,7 +330,7 @@ example : exFrame.OK := ⟨.inr (by decide), .inr (by decide), by decide⟩
 
 /-- the hypotheses of `shift_invariance_list_free` hold for `b = "a\n\n> q\n"` behind `"# h\n\n"` … -/
 example : Start exFrame [97, 10, 10, 62, 32, 113, 10] (exStateB [97, 10, 10, 62, 32, 113, 10]) exStats :=
-  ⟨rfl, rfl, rfl, rfl, rfl, rfl, rfl, (fun h => absurd h (by decide)), by decide, .inr (by decide)⟩
+  ⟨rfl, rfl, rfl, rfl, rfl, rfl, rfl, (fun h => absurd h (by decide)), (fun _ _ _ => rfl), by decide, .inr (by decide)⟩
 
 example : ∀ c ∈ ([97, 10, 10, 62, 32, 113, 10] : Bytes), c ≠ 45 ∧ c ≠ 42 ∧ c ≠ 43 ∧ isNumeric c = false := by decide
 
@@ -256,7 +354,7 @@ example : (blocksLoop 0 9 exStats (exStateB [97, 10, 10, 62, 32, 113, 10])).toOp
     is exactly the fence indentation (fcode_block.go:104 calls `Advance(-1)`): hypotheses hold, both runs end normally, and
     the empty code line `8:8` of `run b` is `13:13` behind the 5-byte prefix -/
 example : Start exFrame [32, 32, 96, 96, 96, 10, 32, 32] (exStateB [32, 32, 96, 96, 96, 10, 32, 32]) exStats :=
-  ⟨rfl, rfl, rfl, rfl, rfl, rfl, rfl, (fun h => absurd h (by decide)), by decide, .inr (by decide)⟩
+  ⟨rfl, rfl, rfl, rfl, rfl, rfl, rfl, (fun h => absurd h (by decide)), (fun _ _ _ => rfl), by decide, .inr (by decide)⟩
 
 example : (blocksLoop 0 9 exStats (exStateB [32, 32, 96, 96, 96, 10, 32, 32])).toOption.map
       (fun r => (treeOf r.2.nodes r.2.nodes.length 0).str)
